@@ -38,8 +38,14 @@ func ruleConfirmCount() *Rule {
 			var out []Obligation
 			// discovery in sendAppendEntries: response.Term term, hasQuorum strings
 			respTerm := ""
+			reqTerm := ""
 			var quorumS []string
 			p.discover(root, func(a *Analysis, f *Frame, in ssa.Instruction) {
+				if s, fld := storeField(in); s != nil && fld == p.Field("AppendEntriesRequest.Term") && f.Parent == nil {
+					if loc := p.Canon(f, s.Addr).S; strings.HasPrefix(loc, "&") {
+						reqTerm = loc[1:]
+					}
+				}
 				if x, y, ok := p.condPair(f, in); ok && f.Parent == nil {
 					if y == "r.currentTerm" && strings.HasSuffix(x, ".Term") && !strings.HasPrefix(x, "r.") {
 						respTerm = x
@@ -67,6 +73,11 @@ func ruleConfirmCount() *Rule {
 			if respTerm != "" {
 				iStale = len(atoms)
 				atoms = append(atoms, CmpAtom("respTerm?curTerm", respTerm, "r.currentTerm"))
+			}
+			iReq := -1
+			if reqTerm != "" {
+				iReq = len(atoms)
+				atoms = append(atoms, CmpAtom("curTerm?reqTerm", "r.currentTerm", reqTerm))
 			}
 			qBase := len(atoms)
 			for k, q := range quorumS {
@@ -114,6 +125,11 @@ func ruleConfirmCount() *Rule {
 							if sp.Val(pt, 0) != L || sp.Val(pt, 1) != 1 || sp.Val(pt, 2) != 1 {
 								return false
 							}
+							// the reply must answer a request of the CURRENT term: a reply to a request sent
+							// under an earlier leadership of this node confirms nothing about this one
+							if iReq < 0 || sp.Val(pt, iReq) != EQ {
+								return false
+							}
 							return iStale < 0 || sp.Val(pt, iStale) != GT
 						}
 						if sp.Val(pt, 3) == 1 {
@@ -128,7 +144,7 @@ func ruleConfirmCount() *Rule {
 							}
 						}
 						return false
-					}, nil, map[string]string{"count": "a reply confirms leadership only if it comes from a current voter and the node is still leader", "verify": "leadership confirmed (reads verified, lease renewed) only on a voter quorum of a leader, or as the single voter"}[o.Extra["kind"]])...)
+					}, nil, map[string]string{"count": "a reply confirms leadership only if it answers a request of the current term, comes from a current voter and the node is still leader", "verify": "leadership confirmed (reads verified, lease renewed) only on a voter quorum of a leader, or as the single voter"}[o.Extra["kind"]])...)
 				}
 			}
 			// every root from which tryApplyReadOnlyOperations or the counter increment is reachable
@@ -146,6 +162,7 @@ func ruleConfirmCount() *Rule {
 				}
 			}
 			out = append(out, freshCounter(p, id, "(*Raft).sendAppendEntriesToPeers", "(*Raft).sendAppendEntries", 2)...)
+			out = append(out, counterNotForwarded(p, id, "(*Raft).sendAppendEntries", 2)...)
 			return out
 		},
 	}
